@@ -5,9 +5,9 @@ import vf
 META = dict(
     text="Index.tla defines every persistent index (unspent outputs, per-address UTXO lists, transaction locations, recorded "
          "side-chain withdrawal hashes, recorded deposit returns, stored proposal drafts) as the fold of a linear chain and "
-         "enumerates connect / disconnect / reconnect sequences of blocks built from eleven transaction templates covering "
+         "enumerates connect / disconnect / reconnect sequences of blocks built from thirteen transaction templates covering "
          "every kind with an index effect (transfers incl. zero-value outputs and cross-height spends, WithdrawFromSideChain "
-         "payload v0/v1/v2, ReturnSideChainDepositCoin, CRCProposal, two reviews sharing one opinion hash, tracking). Every "
+         "payload v0/v1/v2 (also with a plain output in front of the withdraw output), ReturnSideChainDepositCoin, CRCProposal, two reviews sharing one opinion hash, tracking). Every "
          "explored edge is replayed through ChainStore.SaveBlock / RollbackBlock on a real store and all six query surfaces "
          "are compared with the fold after every step.",
     note="Storage level (no block validation), so that payload kinds that are hard to get through full validation are "
@@ -16,7 +16,7 @@ META = dict(
     technique="TLA+ index model (fold semantics) checked by TLC + per-edge behaviour replay on the real ChainStore",
 )
 
-ALL = ["P1", "P2", "P3", "W0", "W1", "W2", "R1", "CP", "CR1", "CR2", "CT"]
+ALL = ["P1", "P2", "P3", "W0", "W1", "W2", "W3", "W4", "R1", "CP", "CR1", "CR2", "CT"]
 CFG = """SPECIFICATION Spec
 CONSTANTS
   Templates = {%s}
